@@ -600,8 +600,13 @@ func NewPackage(pkgPath string, pkg *ast.Package, conf *Config) (p *gogen.Packag
 	}
 
 	gofiles := make([]*ast.File, 0, len(pkg.GoFiles))
-	for _, gof := range pkg.GoFiles {
-		f := fromgo.ASTFile(gof, 0)
+	gopaths := make([]string, 0, len(pkg.GoFiles))
+	for fpath := range pkg.GoFiles {
+		gopaths = append(gopaths, fpath)
+	}
+	sort.Strings(gopaths) // load Go files in a fixed order too (see sfiles)
+	for _, fpath := range gopaths {
+		f := fromgo.ASTFile(pkg.GoFiles[fpath], 0)
 		gofiles = append(gofiles, f)
 		ctx := &blockCtx{
 			pkg: p, pkgCtx: ctx, cb: p.CB(), relBaseDir: relBaseDir,
@@ -670,10 +675,15 @@ func isOverloadFunc(name string) bool {
 }
 
 func initGopPkg(ctx *pkgCtx, pkg *gogen.Package, gopSyms map[string]bool) {
-	for name, f := range ctx.syms {
-		if gopSyms[name] {
-			continue
+	names := make([]string, 0, len(ctx.syms))
+	for name := range ctx.syms {
+		if !gopSyms[name] {
+			names = append(names, name)
 		}
+	}
+	sort.Strings(names) // load in a fixed order: loading reports errors
+	for _, name := range names {
+		f := ctx.syms[name]
 		if _, ok := f.(*typeLoader); ok {
 			ctx.loadType(name)
 		} else if isOverloadFunc(name) {
